@@ -13,6 +13,7 @@ ASSUME = [
     "syscall-level error injection (ENOSPC/EIO) is not part of the verdict: an uncaught H5::Exception is neither undefined behaviour nor within the property's quantifier",
     "violation keys name the sanitizer kind and the first repository function in the report, so each call site is its own finding",
     "grid sizes from 4 (the smallest grid the 4-point interpolation and derivative stencils fit into)",
+    "scale class: a few fixed shapes far beyond everyday sizes - transform length 131072 (2^20 in the thorough tier), a tracking file of 1.1 million particles with the main stack limited to 8 MiB, grids of 513-1030 (2100) cells, 70 (260-300) buckets, 70000 steps without output; 'finished' is required for each, so a silent refusal cannot pass for coverage",
     "the API harnesses of C01-C09, C15, C16, C18-C20 run under the same sanitizer build inside their own checks",
 ]
 
@@ -71,6 +72,34 @@ def gen(seed, i, tier, force=None):
     o = dict(GridSize=r.choice([16, 24, 32, 33, 48, 64]), StepsPerTs=r.choice([20, 40, 100]), rotations=r.choice([0.1, 0.25, 0.5]),
              outstep=r.choice([1, 3, 10]), SavePhaseSpace=r.choice([0, 1, 2]), output="o.h5")
     files = {}
+    if cls == "scale":
+        # sizes far beyond the everyday ones: fixed-size name buffers, stack arrays sized by the input, narrow index types, blocked loops
+        kind = force.split(":")[1]
+        o = dict(GridSize=64, StepsPerTs=1000, rotations=0.003, outstep=1, SavePhaseSpace=1, output="o.h5")
+        o["_scalekind"] = kind
+        if kind.startswith("fft"):
+            # transform length with six / seven decimal digits (2*grid*padding, rounded up to a power of two)
+            big = kind == "fft1048576"
+            o.update(GridSize=256 if not big else 1024, padding=r.choice([300, 391, 512]) if not big else 512, SavePhaseSpace=0, rotations=0.002)
+            if r.chance(0.5):
+                o["VacuumGap"] = 0
+        elif kind.startswith("trk"):
+            o["_trkkind"] = "million"
+            o["tracking"] = "trk.txt"
+            o["FPTrack"] = r.randint(0, 2)
+            o["VacuumGap"] = 0
+        elif kind.startswith("grid"):
+            o.update(GridSize=r.choice([513, 1030, 1024]) if kind == "grid1030" else r.choice([2050, 2100]), rotations=0.002)
+            o["PhaseSpaceShiftX"] = round(r.uniform(-20, 20), 1)
+            o["InterpolationPoints"] = r.randint(2, 4)
+        elif kind.startswith("buckets"):
+            nbk = 70 if kind == "buckets70" else r.choice([260, 300])
+            o.update(GridSize=32 if nbk > 100 else 48, HarmonicNumber=2000 if nbk > 100 else 1000, rotations=0.004,
+                     BunchCurrent=[round(r.loguniform(2e-5, 1e-4), 8) if (k % 9 != 4) else 0.0 for k in range(nbk)])
+        elif kind == "steps70000":
+            o.update(GridSize=32, StepsPerTs=35000, rotations=2.0, outstep=0, SavePhaseSpace=0, VacuumGap=0,
+                     RFPhaseModAmplitude=1.0, RFPhaseModFrequency=16000.0)
+        return cls, o
     if cls in ("grid", "mixed"):
         o["GridSize"] = r.choice([4, 5, 6, 7, 8, 9, 11, 16, 17, 31, 32, 63, 64, 100, 127, 128, 200, 255, 300] if r.chance(0.7) else list(range(4, 80)))
         o["InterpolationPoints"] = r.randint(1, 4)
@@ -204,6 +233,10 @@ def materialise(cls, o, wd, r, tool):
                         fh.write("%r %r\n" % (q, p))
                 elif k == "malformed":
                     fh.write("1.0 2.0\n3.0\nabc def\n4.0 5.0\n")
+                elif k == "million":
+                    rs = np.random.RandomState(r.randint(0, 2 ** 31 - 1))
+                    pts = np.column_stack([rs.uniform(lo - 0.2, hi + 0.2, 1100000), rs.uniform(plo - 0.2, phi + 0.2, 1100000)])
+                    np.savetxt(fh, pts, fmt="%.4f")
                 elif k == "many":
                     for _ in range(3000):
                         fh.write("%.4f %.4f\n" % (r.uniform(lo, hi), r.uniform(plo, phi)))
@@ -321,7 +354,7 @@ def run_case(args):
         out["incon"] = "could not materialise case: %r" % (ex,)
         return out
     P = physics.derive({k: v for k, v in run.items() if k not in ("Impedance", "tracking", "InitialDistFile")})
-    if P["nbuckets"] > 1:
+    if P["nbuckets"] > 1 and cls != "scale":
         if P["spacing_bins"] is None or P["spacing_bins"] < P["n"] or (P["wake_N"] or 0) > (40000 if run.get("RoundPadding", True) else 5000):
             out["skip"] = "overlapping buckets or too long transform"
             shutil.rmtree(wd, ignore_errors=True)
@@ -351,7 +384,10 @@ def run_case(args):
             out["viol"].append(("hang:memcheck", "process did not terminate under memcheck", ""))
         out["memcheck"] = 1
     else:
-        res = prog.run_inovesa("asan", run, wd, xdg, timeout=900)
+        variant = args[6] if len(args) > 6 else "asan"
+        # (the main thread's stack is limited to the customary 8 MiB, whatever this shell's limit happens to be)
+        res = prog.run_inovesa(variant, run, wd, xdg, timeout=3600 if cls == "scale" else 900, stack_kib=8192 if cls == "scale" else None)
+        out["variant"] = variant
         out["cmd"] = " ".join(res["argv"])
         bad = prog.program_outcome_key(res)
         if bad:
@@ -386,6 +422,13 @@ def run(ctx):
         f = forced[k % 16] if (k % 16) < len(forced) else None
         jobs.append((ctx, 7 * k + 3, sdir + "/m", tool, True, f))
     os.makedirs(sdir + "/m", exist_ok=True)
+    scale = [("fft131072", "asan"), ("trk1100k", "rel"), ("grid1030", "asan"), ("buckets70", "asan")]
+    if th:
+        scale += [("fft131072", "asan"), ("fft1048576", "asan"), ("trk1100k", "asan"), ("grid2100", "asan"), ("grid1030", "asan"), ("grid1030", "asan"),
+                  ("buckets260", "asan"), ("buckets260", "rel"), ("steps70000", "asan")]
+    os.makedirs(sdir + "/s", exist_ok=True)
+    # the long ones first, so that they overlap with everything else
+    jobs = [(ctx, 100000 + k, sdir + "/s", tool, False, "scale:" + kind, variant) for k, (kind, variant) in enumerate(scale)] + jobs
     for res in core.pmap(run_case, jobs):
         if "incon" in res:
             ctx.inconcl("case %d: %s" % (res["i"], res["incon"]))
@@ -393,7 +436,9 @@ def run(ctx):
         if "skip" in res:
             ctx.ev("generator_skips")
             continue
-        tag = "memcheck" if res.get("memcheck") else "asan"
+        tag = "memcheck" if res.get("memcheck") else res.get("variant", "asan")
+        if res["cls"] == "scale":
+            ctx.ev("scale." + res["opts"]["_scalekind"] + (".finished" if res.get("finished") else ".ran"))
         ctx.case("%s:%s:%s" % (tag, res["cls"], sorted((k, str(v)) for k, v in res["opts"].items())))
         ctx.ev("runs." + tag)
         ctx.ev("class." + res["cls"])
@@ -417,4 +462,5 @@ def run(ctx):
     ctx.min_events = {}
     c17_fuzz.run(ctx)
     ctx.min_events.update({"runs.asan": n * 3 // 4, "runs.memcheck": nmem // 2, "runs_that_finished": n // 3,
-                      "class.grid": 20, "class.buckets": 10, "class.impfile": 20, "class.startdist": 20, "class.tracking": 10, "class.kicks": 10, "class.rf": 10, "filekind.roundup": 4, "start_files_with_several_bucket_currents": 4, "filekind.h5_two_bunch": 1, "filekind.h5_two_bunch+buckets": 1, "filekind.short": 2, "filekind.edges": 2, "filekind.huge": 2, "impedance_files_with_tracking": 6})
+                      "class.grid": 20, "class.buckets": 10, "class.impfile": 20, "class.startdist": 20, "class.tracking": 10, "class.kicks": 10, "class.rf": 10, "filekind.roundup": 4, "start_files_with_several_bucket_currents": 4, "filekind.h5_two_bunch": 1, "filekind.h5_two_bunch+buckets": 1, "filekind.short": 2, "filekind.edges": 2, "filekind.huge": 2, "impedance_files_with_tracking": 6,
+                      "scale.fft131072.finished": 1, "scale.trk1100k.finished": 1, "scale.grid1030.finished": 1, "scale.buckets70.finished": 1})
